@@ -316,19 +316,23 @@ def rule_cs0013(ctx):
         return ctx.missing(R, "find_signal_assignments")
     import alpha
 
-    fn, _miss = alpha.canon(fn, [("assignment", "forvar", "__u.get_assignments()")])
-    pushes = [p for p in method_calls(fn["body"], "push") if "report" in render(p["args"][0])]
-    ctx.floor(R, "report-pushes", len(pushes), 2)
-    for p in pushes:
-        b = render(p["args"][0])
-        conds = [fact_str(c) for c in conditions_to(fn["body"], p) if c[0] in ("if", "iflet", "notall")]
-        conds = [c for c in conds if "definition_type()" not in c]
-        which = "unnecessary" if ("unnecessary" in b.lower() or "unecessary" in b.lower()) else "assignment"
-        if which == "unnecessary":
-            ok = conds == ["assignment.is_quadratic()"] or conds == ["assignment.is_quadratic"]
-        else:
-            ok = conds == ["!assignment.is_quadratic()"]
-        ctx.check(R, "find_signal_assignments/report/" + which, ok, "report %s under %s" % (b[:80], conds), site(SA, p))
+    import sgrep
+    from astlib import inline_helpers, simplify_body
+
+    fn = inline_helpers(fn, SA, exclude=("visit_statement", "build_assignment_report", "build_unecessary_assignment_report", "get_assignments", "get_constraint_metas", "get_constraints", "add_assignment", "add_constraint"))
+    recs = sgrep.per_record(fn["body"], "__u.get_assignments()")
+    if len(recs) != 1:
+        return ctx.missing(R, "find_signal_assignments/per-assignment-code", "expected one piece of code run per recorded assignment, found %d" % len(recs))
+    var, rbody, how, _produced = recs[0]
+    rb = simplify_body(rbody) if rbody["k"] == "Block" else rbody
+    builders = [c for c in walk(rb) if c["k"] == "Call" and c["func"]["k"] == "Path" and last(c["func"]["path"]) in ("build_assignment_report", "build_unecessary_assignment_report")]
+    ctx.floor(R, "report-pushes", len(builders), 2)
+    for p in builders:
+        b = render(p)
+        conds = [fact_str(c) for c in (conditions_to(rb, p) or []) if c[0] in ("if", "iflet", "notall")]
+        which = "unnecessary" if "unecessary" in b.lower() or "unnecessary" in b.lower() else "assignment"
+        want = ["%s.is_quadratic()" % var] if which == "unnecessary" else ["!%s.is_quadratic()" % var]
+        ctx.check(R, "find_signal_assignments/report/" + which, conds == want, "report %s under %s (%s)" % (b[:80], conds, how), site(SA, p))
     # Assignment::is_quadratic reads the degree of the assigned expression
     isq = find_fn(SA, "is_quadratic")
     if isq is None:
